@@ -112,6 +112,7 @@ MUTANTS = [
     # ---- C13
     ('C13', 'supp/nast.py', r"body_start\.add_name\(AssignedName\(name\.id, np\(node\.body\[0\]\), np\(name\), node\.iter\)\)", "body_start.add_name(AssignedName(name.id, (node.lineno + 1, 0), np(name), node.iter))", 'C13-R1'),
     ('C13', 'supp/scope.py', r"self\.location = np\(node\.body\[0\]\)", "self.location = (np(node)[0] + 1, np(node)[1] + 4)", 'C13-R1'),
+    ('C13', 'supp/util.py', r"self\.last_loc = node\.lineno, node\.col_offset \+ 1\n        self\.visit\(node\)", "self.last_loc = node.lineno + 1, 0\n        self.visit(node)", 'C13-R1'),
     ('C13', 'supp/util.py', r"return self\.location < other\.location", "return self.location[0] < other.location[0]", 'C13-R2'),
     ('C13', 'supp/linter.py', r"message = 'Unused name: \{\}'", "message = 'Unused name: {} (line ' + str(name.declared_at[0]) + ')'", 'C13-R'),
     ('C13', 'supp/scope.py', r"return body\[0\]\.decorator_list\[0\]\.lineno, body\[0\]\.col_offset", "return body[0].decorator_list[0].lineno, body[0].decorator_list[0].col_offset - 1", 'C13-R1'),
@@ -171,7 +172,6 @@ TWINS = [
     (['C06'], 'supp/name.py', r"        attrs = \{\}\n        for b in reversed\(self\.bases\):\n            attrs\.update\(b\._attrs\)\n        attrs\.update\(self\._cls_attrs\)\n        return attrs",
      "        attrs = dict(self._cls_attrs)\n        for b in self.bases:\n            for k, v in b._attrs.items():\n                attrs.setdefault(k, v)\n        return attrs"),
     (['C07'], 'supp/project.py', r"        path = self\.get_path\(\)\n\n        if root:", "        path = sys.path + self.sources\n\n        if root:"),
-    (['C13', 'C03'], 'supp/util.py', r"self\.last_loc = node\.lineno, node\.col_offset \+ 1\n        self\.visit\(node\)", "self.last_loc = node.lineno + 1, 0\n        self.visit(node)"),
     (['C13', 'C11'], 'supp/util.py', r"    return node\.lineno, node\.col_offset\n\n\nSOURCE_MARK", "    return (node.lineno, node.col_offset)\n\n\nSOURCE_MARK"),
 ]
 
